@@ -260,7 +260,13 @@ def run(sh):
     while not sh.expired():
         batch = []
         for _ in range(32):
-            if names and rng.chance(0.3):
+            if rng.chance(0.2):
+                # statement-level serializer paths (top-level @import/@charset-less at-rules, comments between
+                # statements, nested at-rules, keyframes, ...): the C05 generator of CSS-representable programs
+                from .c05 import gen_clean_program
+                batch.append((gen_clean_program(rng), "scss", "statement-shapes"))
+                sh.count("statement_shape_programs")
+            elif names and rng.chance(0.3):
                 batch.append((gen_builtin_call(rng, names), "scss", "builtin-sweep"))
                 sh.count("builtin_sweep_calls")
             elif rng.chance(0.7):
